@@ -1229,6 +1229,26 @@ def fam_round8(rng):
     return out
 
 
+# after round 9: where predicates of an entraited TRAIT by where they put a `for<..>` binder (on the predicate, on the bound, on both,
+# inside a parenthesised bound, on a `Fn` sugar bound), lifetime predicates and relaxed bounds - under every delegation kind
+TRAIT_WHERE = ["P: for<'s> Parser<'s>", "F: for<'y> Fn(&'y str) -> &'y str", "for<'x> &'x P: Into<i32>", "for<'x> P: for<'y> Cmp<'x, 'y>",
+               "P: (for<'s> Parser<'s>) + Send", "P: 'a", "'a: 'static", "P: ?Sized", "P: Parser<'a>", "P: Parser<'static> + 'static",
+               "Self: for<'s> Parser<'s>", "P: Fn(&'a u8) -> &'a u8", "Vec<P>: for<'s> Parser<'s>", "P: Parser<'_>"]
+
+
+def fam_round9(rng):
+    out = []
+    for w in TRAIT_WHERE:
+        for attr in ("", "delegate_by = ref", "delegate_by = Borrow", "FooImpl, delegate_by = Deleg", "FooImpl, delegate_by = ref", "mock_api = M, unimock"):
+            g = "<'a, P, F>" if "'a" in w.replace("'a u8", "'a") else "<P, F>"
+            out.append(Case("round9", attr, "pub trait Scan%s where %s { fn scan(&self, p: &P, f: F) -> i32; }" % (g, w)))
+        for _ in range(3):
+            ws = rng.sample(TRAIT_WHERE, rng.choice([2, 3]))
+            out.append(Case("round9", rng.choice(["", "delegate_by = ref", "FooImpl, delegate_by = Deleg"]),
+                            "trait Scan<'a, P, F>: Sized where %s%s { fn scan(&self, p: &'a P, f: F); async fn later(&self); }" % (", ".join(ws), rng.choice(["", ","]))))
+    return out
+
+
 def build_corpus(seed, tier):
     rng = random.Random(seed)
     thorough = tier == "thorough"
@@ -1262,6 +1282,7 @@ def build_corpus(seed, tier):
     cases += fam_coverage_gaps(rng)
     cases += fam_deps_mock(rng)
     cases += fam_round8(rng)
+    cases += fam_round9(rng)
     for i, c in enumerate(cases):
         c.cid = i
     return cases
